@@ -18,6 +18,7 @@ import (
 type family struct {
 	replay func(args []string) int
 	drive  func(args []string) int
+	fuzz   func(args []string) int // self-driven enumeration / mutation with runtime observers
 }
 
 var families = map[string]*family{}
@@ -44,6 +45,12 @@ func main() {
 			os.Exit(2)
 		}
 		os.Exit(f.replay(os.Args[3:]))
+	case "fuzz":
+		if f.fuzz == nil {
+			fmt.Fprintln(os.Stderr, "family has no fuzz mode")
+			os.Exit(2)
+		}
+		os.Exit(f.fuzz(os.Args[3:]))
 	case "drive":
 		if f.drive == nil {
 			fmt.Fprintln(os.Stderr, "family has no driver")
